@@ -9,6 +9,7 @@ import EinoV.Expected.C19
 import EinoV.Proofs.C02Settled
 import EinoV.Proofs.C19Merge
 import EinoV.Proofs.C19Route
+import EinoV.Proofs.C19Callbacks
 
 namespace EinoV.C19
 open EinoV.Gen
@@ -28,7 +29,10 @@ theorem facts_match :
     (Merge.CloseShape.ofFact Expected.C19.mergeCloseLoop).sound = true ∧
     FactsC19.mergeRecvDrop = Expected.C19.mergeRecvDrop ∧
     -- updateValues lets the values sent to a target without data predecessors reach the closing arm
-    Route.Missing.ofFact FactsC19.missingDpsArm = Route.Missing.ofFact Expected.C19.missingDpsArm := by decide
+    Route.Missing.ofFact FactsC19.missingDpsArm = Route.Missing.ofFact Expected.C19.missingDpsArm ∧
+    -- callback copies: as many as the loop hands out, plus the node's
+    FactsC19.cbCopyCountExpr = Expected.C19.cbCopyCountExpr ∧
+    FactsC19.cbHandLoop = Expected.C19.cbHandLoop := by decide
 
 /-- **ledger_balanced.** For every task — any number of data successors `W`, branches `B`,
     selected targets `sel` (a multi-branch may select none, or several) and repeated targets
@@ -264,6 +268,57 @@ theorem skipped_later_witness :
     xFates ⟨.emptySet, true, false, true, true, true⟩ c2 = [.dropped, .closedAfter 0 1] ∧
     xMustBlock ⟨.emptySet, true, false, true, true, true⟩ c2 = true := by
   decide
+
+/-! ### copies made for callback handlers: the handler LIST (repeated values, decliners) -/
+
+open EinoV.C19.Cb in
+/-- **callback_copies_all_handed_out.** "callback handlers that close their copies": for every
+    handler list of a streaming timing — any length, the same handler value listed any number of
+    times (passed twice for the run; global and per call), handlers whose TimingChecker declines
+    the timing anywhere in the list — `OnWithStreamHandle` as read from the source (facts
+    `cbCopyCountExpr`, `cbHandLoop`) makes exactly one copy per kept occurrence plus the node's,
+    hands the copy at position `i` to the `i`-th kept occurrence (every position once), and leaves
+    none over.  Every copy is thereby owned by a handler (who closes it) or by the node. -/
+theorem callback_copies_all_handed_out (hs : List Occ) :
+    handed (HandRule.ofFact FactsC19.cbHandLoop) hs = List.range (kept hs).length ∧
+    copies (CopyRule.ofFact FactsC19.cbCopyCountExpr) hs
+      = some (if (kept hs).isEmpty then 1 else (kept hs).length + 1) ∧
+    leaked (CopyRule.ofFact FactsC19.cbCopyCountExpr) (HandRule.ofFact FactsC19.cbHandLoop) hs = some 0 := by
+  have hh : HandRule.ofFact FactsC19.cbHandLoop = .everyKept := by decide
+  have hc : CopyRule.ofFact FactsC19.cbCopyCountExpr = .perKept := by decide
+  have h1 : handed .everyKept hs = List.range (kept hs).length := by
+    simp [handed, handedAux_every]
+  refine ⟨by rw [hh, h1], by rw [hc]; rfl, ?_⟩
+  rw [hh, hc]
+  simp only [leaked, copies, h1, List.length_range, Option.map_some, Option.some.injEq]
+  split <;> omega
+
+open EinoV.C19.Cb in
+/-- negation, general form: a loop that passes over a handler value it has seen earlier in the
+    list, while the copies are still made per listed occurrence, leaves a copy nobody owns
+    whenever the kept list starts with a value that is listed again right away (in particular
+    `WithCallbacks(h), WithCallbacks(h)`). -/
+theorem repeated_handler_copy_leaks_when_loop_skips_it (o : Occ) (rest : List Occ) (ho : o.needs = true) :
+    ∃ n, leaked .perKept .skipRepeated (o :: o :: rest) = some n ∧ 0 < n := by
+  have hk : kept (o :: o :: rest) = o :: o :: kept rest := by simp [kept, List.filter, ho]
+  have hl : (handed .skipRepeated (o :: o :: rest)).length ≤ 1 + (kept rest).length := by
+    simp only [handed, hk, handedAux, List.contains_nil, Bool.false_eq_true, ↓reduceIte, List.length_cons,
+      List.contains_cons, BEq.rfl, Bool.true_or]
+    have := handedAux_skip_le [o.id] (kept rest) (0 + 1 + 1)
+    omega
+  refine ⟨_, rfl, ?_⟩
+  simp only [hk, List.isEmpty_cons, Bool.false_eq_true, ↓reduceIte, List.length_cons]
+  omega
+
+open EinoV.C19.Cb in
+/-- negation witness (the harness lists one handler value twice; handler-list entries `=i`, `g=i`):
+    handler 7 passed twice, a decliner in between. -/
+theorem repeated_handler_witness :
+    leaked .perKept .everyKept [⟨7, true⟩, ⟨3, false⟩, ⟨7, true⟩] = some 0 ∧
+    handed .everyKept [⟨7, true⟩, ⟨3, false⟩, ⟨7, true⟩] = [0, 1] ∧
+    copies .perKept [⟨7, true⟩, ⟨3, false⟩, ⟨7, true⟩] = some 3 ∧
+    handed .skipRepeated [⟨7, true⟩, ⟨3, false⟩, ⟨7, true⟩] = [0] ∧
+    leaked .perKept .skipRepeated [⟨7, true⟩, ⟨3, false⟩, ⟨7, true⟩] = some 1 := by decide
 
 /-! ### merges: closing a merged reader early -/
 
